@@ -422,7 +422,7 @@ def metric_partition_family(draw):
 
 
 @st.composite
-def transform_family(draw):
+def transform_family(draw, kind=None):
     n = draw(st.integers(2, 4))
     dims = {"ZC": n, "ZO": n + 1, "E0": 2}
     zc = sorted(draw(st.sets(st.integers(0, 40).map(lambda k: k / 4.0), min_size=n, max_size=n)))
@@ -438,7 +438,7 @@ def transform_family(draw):
     arrays["TO"] = {"dims": ["ZO"], "values": prof, "name": "THETA"}
     levels = draw(st.lists(st.sampled_from(prof + [min(prof) - 1, max(prof) + 1, (prof[0] + prof[1]) / 2]), min_size=2, max_size=4, unique=True))
     calls = []
-    kind = draw(st.sampled_from(["linear-td", "linear-coord", "conservative", "linear-nd"]))
+    kind = kind or draw(st.sampled_from(["linear-td", "linear-coord", "conservative", "linear-nd"]))
     tdim = draw(st.sampled_from(["LEV", "SIGMA"]))
     if kind == "linear-td":
         calls.append({"fn": "transform", "da": "A0", "axis": "Z", "target": {"dims": [tdim], "values": levels} if draw(st.booleans()) else levels,
